@@ -56,14 +56,31 @@ TECHNIQUE = "model-based / stateful property-based testing (Hypothesis-generated
 CONV_TOL = 1e-12   # conversion vs the same conversion of a pristine rebuild
 FAIL_TOL = 1e-10   # values after a refused in-place frame change (form round trip rounding)
 COV_TOL = 1e-9     # covariance after a frame change, relative to the largest entry
+CART_TOL = 1e-9    # (form, frame, values) agree: position / velocity read back in cartesian, relative to |r|, |v|
 TWIN_TOL = 1e-9    # same covariance conversion on source and copy, each term in units of its own sigmas
 TWIN_STEPS = ("QSW", "TNW", "EME2000")
 CLONE_TOL = 1e-10  # conversions involving an unpickled Frame (a clone of the registered one: name -> same name costs rounding)
 T0_MJD = 51544     # 2000-01-01
 
 
+def sister_frames():
+    """Two frames with the origin and axes of EME2000 whose central body is 1.3 / 1.7 times as massive as the
+    Earth (as vf.props.c01.sister_frame): registered once per process, found by name afterwards."""
+    from beyond import constants
+    from beyond.frames import center, frames, orient
+
+    for name in H.SISTERS:
+        if name not in frames.dynamic:
+            k = float(name.split("x")[1])
+            c = center.Center(name + "C", body=constants.Body(name, constants.Earth.mass * k,
+                                                               constants.Earth.equatorial_radius))
+            c.add_link(frames.EME2000.center, orient.EME2000, np.zeros(6))
+            frames.Frame(name, orient.EME2000, c)
+
+
 def setup(shard):
     env.eop("missing-pass")
+    sister_frames()
 
 
 # ------------------------------------------------------------------ building objects
@@ -338,6 +355,14 @@ class Machine:
         except Exception as exc:
             self.lib_exc(exc, f"twin:{what}")
 
+    def label_bodies(self, s, frame):
+        def body(f):
+            return f if f in H.SISTERS else "Earth"
+
+        if body(s["frame"]) != body(frame):
+            self.labels.append("frame-change-across-central-bodies" if s["form"] in H.MU_FORMS
+                               else "frame-change-across-bodies-mu-free-form")
+
     def forget(self, idx):
         self.equiv = {p for p in self.equiv if idx not in p}
 
@@ -403,6 +428,26 @@ class Machine:
                     e["cov"] = s["cov"]
             return e
 
+        def cart_expected(frame):
+            """position and velocity the state must have in `frame`: its own cartesian reading (form conversion
+            in the frame it is in) moved by the cartesian-only frame change, which involves no central body"""
+            from beyond.orbits import StateVector
+
+            cart = np.array(rebuild(dict(s, cov=None), self.dates[i]).copy(form="cartesian"), dtype=float)
+            return np.array(StateVector(cart, self.dates[i], "cartesian", s["frame"]).copy(frame=frame), dtype=float)
+
+        def consistent(idx, want, what):
+            """(form, frame, values) of object idx agree: read in cartesian it is where it must be"""
+            got = np.array(self.pool[idx].copy(form="cartesian"), dtype=float)
+            err = max(np.linalg.norm(got[:3] - want[:3]) / np.linalg.norm(want[:3]),
+                      np.linalg.norm(got[3:] - want[3:]) / np.linalg.norm(want[3:]))
+            if not (np.all(np.isfinite(got)) and self.ratio(err, CART_TOL)):
+                sf = self.shadow[idx]
+                self.add(f"form-frame-values-disagree:{what}",
+                         f"object {idx} ({sf['form']} in {sf['frame']}, was {s['form']} in {s['frame']}) reads in cartesian "
+                         f"as {got.tolist()}, the state is at {want.tolist()} (relative error {err:.3g})",
+                         form=sf["form"], frame=sf["frame"], old_frame=s["frame"])
+
         def arg(kind, nm):
             if not op.get("as_object"):
                 return nm
@@ -427,7 +472,11 @@ class Machine:
                         kw["frame"] = arg("frame", frame)
                     new = o.copy(**kw)
                 exp = conv_expected(form, frame) if (form or frame) else dict(s)
+                want = cart_expected(frame) if frame else None
                 n = self.new_member(new, exp, i, CONV_TOL, COV_TOL)
+                if frame:
+                    consistent(n, want, name)
+                    self.label_bodies(s, frame)
                 if new is o:
                     self.add(f"same-object:{name}", "copy returned the receiver itself")
                 touched.add(n)
@@ -498,9 +547,12 @@ class Machine:
                 touched.add(i)
                 self.compare_touched(i, conv_expected(form=op["form"]), CONV_TOL, COV_TOL)
             elif name == "set_frame":
+                want = cart_expected(op["frame"])
                 o.frame = arg("frame", op["frame"])
                 touched.add(i)
                 self.compare_touched(i, conv_expected(frame=op["frame"]), CONV_TOL, COV_TOL)
+                consistent(i, want, name)
+                self.label_bodies(s, op["frame"])
                 if s["cov"] is not None and s["cov"][0] == s["frame"] and s["frame"] != op["frame"]:
                     if op["frame"] in H.ROTATING:
                         self.moved_rot.add(i)
